@@ -50,7 +50,7 @@ def isNull : Val → Bool | .null => true | _ => false
 def toText : Val → String
   | .null => "null"
   | .int i => toString i
-  | .flt b => "f:" ++ toString (Float.ofBits b)
+  | .flt b => "f:" ++ toString b.toNat
   | .bool b => if b then "true" else "false"
   | .str s => "s:" ++ s
 
